@@ -5,6 +5,7 @@ import KlogV.Model.Eval
 import KlogV.Model.Serialiser
 import KlogV.Model.Tags
 import KlogV.Model.Report
+import KlogV.Model.Commands
 open KlogV
 
 def optStr {α} (f : α → String) : Option α → String
@@ -99,8 +100,58 @@ def rowStr (r : Row) : String :=
   | some (t, s) => s!"{t}/{s}"
   | none => "-"
 
+def linesOfArg (s : String) : List Bytes := (s.splitOn ",").map bytesOfHex
+
+def optLines (s : String) : Option (List Bytes) := if s == "~" then none else some (linesOfArg s)
+
+def dateSelOf (s : String) : Option DateSel :=
+  match s with
+  | "def" => some .default | "today" => some .today | "yesterday" => some .yesterday | "tomorrow" => some .tomorrow
+  | _ => if s.startsWith "d:" then (Date.parse (s.toList.drop 2)).map .explicit else none
+
+def optTime (s : String) : Option (Option Time) :=
+  if s == "~" then some none else (Time.parse (decodeGo (bytesOfHex s))).map some
+
+def optNat (s : String) : Option Nat := if s == "~" then none else some s.toNat!
+def optInt (s : String) : Option Int := if s == "~" then none else some s.toInt!
+
+def cfgOf (toks : List String) : Config :=
+  toks.foldl (fun c t => match t.splitOn "=" with
+    | ["round", v] => { c with rounding := some v.toNat! }
+    | ["should", v] => { c with should := some v.toInt! }
+    | ["dashes", v] => { c with dateDashes := some (v == "1") }
+    | ["t24", v] => { c with time24 := some (v == "1") }
+    | _ => c) {}
+
+def cmdOf (toks : List String) : Option Cmd :=
+  match toks with
+  | ["track", d, e] => (dateSelOf d).map (fun d => .track d (linesOfArg e))
+  | ["create", d, sh, sm] => (dateSelOf d).map (fun d => .create d (optInt sh) (optLines sm))
+  | ["start", d, t, r, sm, res, nth] => do
+    let d ← dateSelOf d; let t ← optTime t
+    pure (.start ⟨d, t, optNat r⟩ ⟨optLines sm, res == "1", nth.toInt!⟩)
+  | ["switch", d, t, r, sm, res, nth] => do
+    let d ← dateSelOf d; let t ← optTime t
+    pure (.switch ⟨d, t, optNat r⟩ ⟨optLines sm, res == "1", nth.toInt!⟩)
+  | ["stop", d, t, r, sm] => do
+    let d ← dateSelOf d; let t ← optTime t
+    pure (.stop ⟨d, t, optNat r⟩ (optLines sm))
+  | ["pause", sm, noTags, extend, ticks] =>
+    some (.pause (optLines sm) (noTags == "1") (extend == "1") (if ticks == "~" then [] else (ticks.splitOn ",").map String.toInt!))
+  | _ => none
+
 def handle (u : UTab) (args : List String) : String :=
   match args with
+  | "cmd" :: h :: y :: m :: d :: hh :: mm :: rest =>
+    let cfgToks := rest.takeWhile (· != "--")
+    let cmdToks := (rest.dropWhile (· != "--")).drop 1
+    (match cmdOf cmdToks with
+     | none => "bad-cmd"
+     | some c =>
+       match runCmd u (cfgOf cfgToks) ⟨dateOfArgs y m d, hh.toNat!, mm.toNat!⟩ c (bytesOfHex h) with
+       | .ok f => "ok " ++ hexOrDash (hexOfBytes f)
+       | .fail => "fail"
+       | .panic => "panic")
   | "filter" :: h :: y :: m :: d :: toks =>
     withRecords h fun rs =>
       match flagsOf u toks with
